@@ -422,7 +422,9 @@ def pool_map(run: Run, modname, funcname, args, procs=None, hooks=False, timeout
     procs = min(procs or int(os.environ.get("VERIF_PROCS") or os.cpu_count() or 4), len(args), 16) or 1
     out = []
     ctx = mp.get_context("spawn")
-    with cf.ProcessPoolExecutor(max_workers=procs, mp_context=ctx) as ex:
+    # one task per process: the checks keep per-process state (session, scratch paths) that must not leak from one task into
+    # the next when there are fewer processes than tasks (VERIF_PROCS) or a fast worker takes a second task
+    with cf.ProcessPoolExecutor(max_workers=procs, mp_context=ctx, max_tasks_per_child=1) as ex:
         futs = []
         for i, a in enumerate(args):
             sc = os.path.join(run.scratch, "w%d" % i)
